@@ -7,7 +7,8 @@
 From Coq Require Import ZArith List Bool Permutation Lia.
 From FT Require Import Model.Base Model.Obs Model.C09Transform Model.C09Check
                        Proofs.C09OrderP Proofs.C09FlattenP Proofs.C09BelowP Proofs.C09CheckP
-                       Proofs.C09SwizzleP Proofs.C09WfP Proofs.C09RebuildP Proofs.C09SwapP Proofs.C09UnflP.
+                       Proofs.C09SwizzleP Proofs.C09WfP Proofs.C09RebuildP Proofs.C09SwapP Proofs.C09UnflP
+                       Proofs.C09SplitP Proofs.C09LinearP Proofs.C09RefP Proofs.C09SpecP.
 Import ListNotations.
 Open Scope Z_scope.
 
@@ -160,6 +161,79 @@ Theorem C09_below_perm : forall (W : cfib -> Prop) f g d,
 Proof. exact below_perm. Qed.
 Print Assumptions C09_below_perm.
 
+(* flattenRanks(style "linear", levels = l+1) for int coordinates inside the shapes ([wfs]):
+   it succeeds, content and order are preserved, every new coordinate is
+   c1 * (product of the lower shapes) + c0 recursively ([imglin]) and lies inside the product
+   shape; the keys are strictly ascending (so the map is injective on in-shape coordinates) *)
+Theorem C09_flatten_linear : forall l raise fuel shapes d es,
+  (S (S l) <= length shapes)%nat -> wfl (S l) es -> wfs (S l) shapes es ->
+  exists r, merge_helper (S l) st_linear raise fuel shapes d es = Some r
+    /\ ccontent d (CN r) = map (on_pt (imglin (S l) shapes)) (ccontent d (CN es))
+    /\ pw ccmp (map fst r)
+    /\ Forall (in_range (hd 0 shapes * prodZ (firstn (S l) (tl shapes)))) r.
+Proof. exact flatten_levels_lin. Qed.
+Print Assumptions C09_flatten_linear.
+
+(* ... and [imglin] is the oracle's Horner formula over the shapes of the flattened ranks *)
+Theorem C09_linear_closed_form : forall levels shapes p,
+  (levels < length p)%nat -> (S levels <= length shapes)%nat ->
+  Forall (fun c => is_single c = true) (firstn (S levels) p) ->
+  imglin levels shapes p
+  = [horner (firstn (S levels) p) (firstn (S levels) shapes)] :: skipn (S levels) p.
+Proof. exact imglin_closed. Qed.
+Print Assumptions C09_linear_closed_form.
+
+(* flattening a uniform split with absolute coordinates restores the fiber: the result is
+   exactly the list of the fiber's non-empty elements, hence the same content.
+   ([split_uniform] is the summary of splitUniform proved in C08: non-empty elements grouped
+   by c // step; the statement holds for every step.) *)
+Theorem C09_split_flatten_abs : forall step fuel shapes d es, pw ccmp (map fst es) ->
+  merge_helper 1 st_absolute true fuel shapes d (split_uniform step d es) = Some (cpresent d es)
+  /\ ccontent d (CN (cpresent d es)) = ccontent d (CN es).
+Proof. intros. split; [apply split_flatten_abs; assumption|apply content_present]. Qed.
+Print Assumptions C09_split_flatten_abs.
+
+(* the oracle's content clause follows from "the result's content is a permutation of the
+   image" whenever the point map is injective on the operand's (distinct) points *)
+Theorem C09_content_ok_bijective : forall img src, NoDup (map fst src) ->
+  (forall p p', In p (map fst src) -> In p' (map fst src) -> img p = img p' -> p = p') ->
+  forall d out, Permutation out (map (on_pt img) src) -> content_ok d img src out = true.
+Proof. exact content_ok_of_perm. Qed.
+Print Assumptions C09_content_ok_bijective.
+
+(* the model satisfies the oracle on every well-formed swizzle and swizzle-then-inverse case *)
+Theorem C09_model_meets_spec_swizzle : forall c perm,
+  k_op c = OSwizzle perm \/ k_op c = OSwizzleInv perm -> c09_wf c = true ->
+  holds c09_checker c (model c09_checker c) = true.
+Proof. intros c perm [H|H] Hwf; [eapply spec_swizzle|eapply spec_swizzle_inv]; eauto. Qed.
+Print Assumptions C09_model_meets_spec_swizzle.
+
+(* closed form of flattenRanks when no two elements collide (ascending keys at every level):
+   flatten the lower fibers, then concatenate the blocks; for tuple / pair this is the case on
+   every [wfl] fiber, for linear on every in-shape one *)
+Theorem C09_flatten_closed_form_fiber : forall l style raise fuel shapes d es,
+  ref_ok l style shapes d es ->
+  merge_helper (S l) style raise fuel shapes d es = Some (flat_ref l style shapes d es).
+Proof. exact merge_helper_ref. Qed.
+Print Assumptions C09_flatten_closed_form_fiber.
+
+(* the flattened fiber is well formed: strictly ascending coordinates, payloads the (sorted,
+   uniform-depth) sub-trees l+2 levels below the operand *)
+Theorem C09_flatten_wf : forall l style shapes d es m, ref_ok l style shapes d es ->
+  deepP (S l) (fun p => csorted p = true /\ cdepth_ok m p = true) es ->
+  csorted (CN (flat_ref l style shapes d es)) = true
+  /\ cdepth_ok (S m) (CN (flat_ref l style shapes d es)) = true.
+Proof. exact flat_ref_wf. Qed.
+Print Assumptions C09_flatten_wf.
+
+(* the model satisfies the oracle on every well-formed flattenRanks(depth = 0) case, all three
+   styles, any number of levels *)
+Theorem C09_model_meets_spec_flatten_root : forall c levels style,
+  k_op c = OFlatten 0 levels style -> c09_wf c = true ->
+  holds c09_checker c (model c09_checker c) = true.
+Proof. exact spec_flatten_root. Qed.
+Print Assumptions C09_model_meets_spec_flatten_root.
+
 (* the comparison used for sortedness everywhere (Python's tuple order) is a strict order
    whose Eq is equality *)
 Theorem C09_order : (forall a b, ccmp a b = Eq <-> a = b)
@@ -183,15 +257,15 @@ Proof. exact content_ok_sound. Qed.
 Print Assumptions C09_oracle_sound.
 
 (* Full statement wanted:  forall c, c09_wf c = true -> holds c09_checker c (model c09_checker c) = true.
-   Proved part: the observation pipeline is lossless — the oracle evaluated on the model's
-   encoded observation is the oracle evaluated on the model's result tree (so verdict bit 4 of
-   every run tests exactly "the model's result satisfies the property"); that this is [true]
-   is proved above, clause by clause, for the content of swizzle (+ inverse, + csorted/cdepth_ok
-   of the result), swap at any depth (up to permutation), flatten tuple/pair at any number of
-   levels, unflatten, unflatten . flatten and the Below descent; it is NOT proved (tested on
-   every case by verdict bit 4) for: linear flatten, absolute/relative merge, flatten(split),
-   csorted/cdepth_ok/rank counts of the swap, flatten, merge and unflatten results, and the
-   step from the clause theorems to content_ok (injectivity of the point maps). *)
+   Proved: for OSwizzle, OSwizzleInv (C09_model_meets_spec_swizzle) and OFlatten at depth 0 in
+   all three styles (C09_model_meets_spec_flatten_root), via C09_content_ok_bijective.
+   Proved for every operation: the observation pipeline is lossless (below) - the oracle
+   evaluated on the model's encoded observation is the oracle evaluated on the model's result
+   tree, so verdict bit 4 of every run tests exactly "the model's result satisfies the property".
+   Clause theorems exist (content) for swap at any depth, flatten below the root (C09_below),
+   unflatten . flatten, flatten(split); NOT yet connected to the oracle for those operations:
+   csorted/cdepth_ok of the swap / unflatten / Below results.  NOT proved at all: the
+   absolute / relative merge (grouping of colliding keys and _mergeToFibertree's union). *)
 Theorem C09_model_meets_spec_partial : forall c,
   holds c09_checker c (model c09_checker c)
   = c09_wf c &&
@@ -203,6 +277,25 @@ Theorem C09_model_meets_spec_partial : forall c,
     end.
 Proof. exact c09_pipeline. Qed.
 Print Assumptions C09_model_meets_spec_partial.
+
+(* the operations for which "the model satisfies the oracle" is proved for all well-formed cases *)
+Definition proved_op (o : op) : bool :=
+  match o with
+  | OSwizzle _ | OSwizzleInv _ => true
+  | OFlatten O _ _ => true
+  | _ => false
+  end.
+
+Theorem C09_model_meets_spec_proved_ops : forall c,
+  c09_wf c = true -> proved_op (k_op c) = true ->
+  holds c09_checker c (model c09_checker c) = true.
+Proof.
+  intros c Hwf Hp. destruct (k_op c) as [perm|perm|dp|dp|dp lv st|dp lv st|dp lv st|dp stp] eqn:E; try discriminate.
+  - eapply spec_swizzle; eauto.
+  - eapply spec_swizzle_inv; eauto.
+  - destruct dp; [|discriminate]. eapply spec_flatten_root; eauto.
+Qed.
+Print Assumptions C09_model_meets_spec_proved_ops.
 
 (* non-vacuity: a 3-rank fiber with an explicit default and an empty sub-fiber is in the
    domain of C09_flatten for two levels, its flattening is in the domain of C09_unflatten, and
